@@ -251,6 +251,9 @@ theorem c05_roundtrip_written (env : Env) (henv : env.tgt = .value) (s : Bytes)
     parseTop env (Model.Escape.escapedBytes s) = .ok (.str s) := by
   rw [c05_escape_spec]; exact c05_roundtrip env henv s hs
 
+example : parseTop ⟨{ po := true }, .str, .value⟩ (Model.Escape.escapedBytes [0x22, 0xc3, 0xa9, 0x0a]) =
+    .ok (.str [0x22, 0xc3, 0xa9, 0x0a]) := c05_roundtrip_written _ rfl _ (fun h => absurd rfl h)
+
 /-- `a"\é😀<0x1f>` → `"a\"\\é😀\u001f"` → back -/
 example : parseTop ⟨{}, .reader, .value⟩
     (Spec.Str.escapeSpec [0x61, 0x22, 0x5c, 0xc3, 0xa9, 0xf0, 0x9f, 0x98, 0x80, 0x1f]) =
